@@ -20,12 +20,12 @@ T_C01_AllServed == (StepDone("await_started") \/ StepDone("stress")) => obs.step
 \* C02_Bound: per worker thread, connections in progress never exceed max_concurrent_connections
 T_C02_Bound == Step => obs.maxLivePerWorker <= obs.limit
 \* C03_NoLostWake: whenever the scenario waits for a waiting connection to be served after a release, it is
-T_C03_NoLostWake == StepDone("await_started") => obs.stepOk
+T_C03_NoLostWake == (StepDone("await_started") \/ StepDone("stress")) => obs.stepOk
 \* C04: with nobody saturated k connections spread evenly over the workers
 T_C04_EvenSpread == (StepDone("await_started") /\ obs.limit >= 8) =>
                        obs.maxLivePerWorker * obs.workers <= obs.nstarted + obs.workers - 1
 \* C05: nothing starts while paused; connects succeed (UDS path present); everything waiting is served after resume
-T_C05_PauseResume == (StepDone("quiet") \/ StepDone("connect") \/ StepDone("await_started")) => obs.stepOk
+T_C05_PauseResume == (StepDone("quiet") \/ StepDone("connect") \/ StepDone("await_started") \/ StepDone("stress")) => obs.stepOk
 \* C08: after a worker died service continues and a replacement instance of the service is created
 T_C08_ServiceContinues == (StepDone("await_started") \/ StepDone("await_finished")) => obs.stepOk
 \* (a worker died = its service instances were destroyed while the server was running)
